@@ -176,7 +176,10 @@ type cluster struct {
 	undone         map[int]bool         // write id -> undone by a volume revert to a snapshot taken before it
 	goodSnaps      []goodSnap           // volume snapshots that were reported successful
 	failFold       bool
-	killFold       bool                 // the next coalesce: the sync agent's sfold child dies from a signal
+	killFold       bool        // the next coalesce: the sync agent's sfold child dies from a signal
+	failSpawn      bool        // the next coalesce: the sync agent cannot start the sfold child at all
+	spawnFailed    map[int]int // node -> 1 + polls of the process that never started
+	cleanerStuck   map[int]bool
 	agents         map[int]http.Handler // node -> router of jiva's REAL sync agent (used for coalesce requests)
 	failFiemap     bool                 // the next block-map rebuild of the task's replica: one extent query (FIEMAP) of the base file fails
 	restoreFiemap  func()
@@ -243,6 +246,9 @@ func setup() {
 type transport struct{}
 
 func (transport) RoundTrip(req *http.Request) (*http.Response, error) {
+	if atomic.LoadInt32(&refuseAgentPolls) == 1 && strings.HasSuffix(req.URL.Host, ":9504") {
+		return nil, fmt.Errorf("dial tcp %s: connection refused (the sync agent is gone)", req.URL.Host)
+	}
 	cl := curr
 	if t := cl.cur; t != nil && t.running && t.kind != "add" && t.goid == goid() { // a split add has exactly one gate: inside factory.Create
 		// per-task nesting depth: only the task's own top-level requests are gates (handlers it reaches make nested ones)
@@ -508,7 +514,7 @@ func newCluster(cfg *Cfg, scratch string) *cluster {
 		cfg.N = cfg.RF + 1
 	}
 	os.Setenv("REPLICATION_FACTOR", fmt.Sprint(cfg.RF))
-	cl := &cluster{cfg: cfg, fe: &frontend{}, cnt: map[string]int{}, acked: map[int]bool{}, issued: map[int]bool{}, attachAt: map[int]int{}, synced: map[int]bool{}, failedBE: map[int]bool{}, adds: map[int]*task{}, pendingCleaner: -1, cleanerTick: map[int]chan time.Time{}, regTruth: map[int]int64{}, lostProbes: map[int]int{}, opFailed: map[int]bool{}, undone: map[int]bool{},
+	cl := &cluster{cfg: cfg, fe: &frontend{}, cnt: map[string]int{}, acked: map[int]bool{}, issued: map[int]bool{}, attachAt: map[int]int{}, synced: map[int]bool{}, failedBE: map[int]bool{}, adds: map[int]*task{}, pendingCleaner: -1, cleanerTick: map[int]chan time.Time{}, regTruth: map[int]int64{}, lostProbes: map[int]int{}, opFailed: map[int]bool{}, undone: map[int]bool{}, cleanerStuck: map[int]bool{},
 		failIO: map[int]bool{}, failREST: map[string]bool{}, stickyREST: map[string]bool{}}
 	cl.down = make([]bool, cfg.N)
 	for i := 0; i < cfg.N; i++ {
